@@ -24,29 +24,29 @@ open Mistletoe Mistletoe.Py Mistletoe.Scan
 /-! ### `ListItem.read` in context -/
 
 /-- a line that begins with a character other than space, tab, newline is not a continuation line of an item -/
-theorem parseContinuation_lead (c : Char) (r : Str) (W : Nat) (hW : 1 ≤ W) (h1 : c ≠ ' ') (h2 : c ≠ '\t') (h3 : c ≠ '\n') :
-    parseContinuation (c :: r) W = none := by
-  unfold parseContinuation continuation
+theorem continuation_lead (c : Char) (r : Str) (h1 : c ≠ ' ') (h2 : c ≠ '\t') (h3 : c ≠ '\n') :
+    continuation (c :: r) = none ∨ ∃ body, continuation (c :: r) = some ([], c :: body) := by
+  unfold continuation
   have hsp : span (fun c => c == ' ' || c == '\t') (c :: r) = ([], c :: r) := by simp [span, h1, h2]
   simp only [hsp]
   split
-  · rename_i x heq
-    split at heq
-    · rename_i h; simp only [List.cons.injEq] at h; exact absurd h.1 h3
-    · split at heq
-      · exact heq
-      · split at heq
-        · simp only [Option.some.injEq] at heq
-          subst heq
-          have : ((c :: (span (fun x => x != '\n') r).1 ++ ['\n']) == ['\n']) = false := by
-            simp only [List.cons_append, beq_eq_false_iff_ne, ne_eq, List.cons.injEq, not_and]
-            intro e; exact absurd e h3
-          simp only [this, Bool.false_eq_true, if_false, expandtabs, expandtabsAux, List.length_nil]
-          have : ¬ (0 ≥ W) := by omega
-          simp [this]
-        · exact heq
-    · exact heq
-  · rfl
+  · exact Or.inl rfl
+  · split
+    · exact Or.inr ⟨_, rfl⟩
+    · exact Or.inl rfl
+
+theorem parseContinuation_lead (c : Char) (r : Str) (W : Nat) (hW : 1 ≤ W) (h1 : c ≠ ' ') (h2 : c ≠ '\t') (h3 : c ≠ '\n') :
+    parseContinuation (c :: r) W = none := by
+  unfold parseContinuation
+  rcases continuation_lead c r h1 h2 h3 with h | ⟨body, h⟩
+  · rw [h]
+  · rw [h]
+    have : ((c :: body) == ['\n']) = false := by
+      simp only [beq_eq_false_iff_ne, ne_eq, List.cons.injEq, not_and]
+      intro e; exact absurd e h3
+    simp only [this, Bool.false_eq_true, if_false, expandtabs, expandtabsAux, List.length_nil]
+    have : ¬ (0 ≥ W) := by omega
+    simp [this]
 
 theorem trailNl_append_nl : ∀ (rest : List Line) (nl : Nat) (x : Line), x.s = ['\n'] → trailNl nl (rest ++ [x]) = trailNl nl rest + 1
   | [], nl, x, h => by simp [trailNl, h]
@@ -100,4 +100,1305 @@ theorem itemLoop_then_stop (cfg : Cfg) (W start : Nat) (s : Line) (post' : List 
     have e : pre'.length + (0 + 1) + rest'.length = pre'.length + (rest'.length + 1) := by omega
     rw [e]
 
+
+theorem indentedAs_nl (W : Nat) (x : Line) (h : x.s = ['\n']) : IndentedAs W x x := ⟨rfl, Or.inl ⟨h, h⟩⟩
+
+/-- **ListItem.read** up to the nested tokenizer, for an item whose lines `body'` are followed by a "\n" line and then
+    by the end of the buffer or by a line that is no continuation line and carries no marker: the nested tokenizer gets
+    the unindented lines without the "\n" line, no next marker is reported, the cursor is back on the "\n" line -/
+theorem itemLines_trail (cfg : Cfg) (ind W : Nat) (ld content : Str) (l0' nlL : Line) (body' body post pre : List Line) (start : Nat)
+    (prev : Option (Nat × Nat × Str × Str))
+    (hmk : prev = some (ind, W, ld, content) ∨ (prev = none ∧ parseMarker l0'.s = some (ind, W, ld, content)))
+    (hnb : isBlank content = false) (hbody : IndentedAll W body' body) (htr : trailNl 0 body = 0) (hnl : nlL.s = ['\n'])
+    (hpost : post = [] ∨ ∃ s post', post = s :: post' ∧ parseContinuation s.s W = none ∧ parseMarker s.s = none ∧ NlEnd s.s) :
+    itemLines cfg ⟨pre ++ l0' :: (body' ++ nlL :: post), pre.length, start⟩ prev =
+      .ok (.lines ({ s := content, origin := l0'.origin } :: body) (start + pre.length) ind W ld (start + pre.length) l0'.origin none
+        ⟨pre ++ l0' :: (body' ++ nlL :: post), pre.length + (body'.length + 1), start⟩) := by
+  have hp := peek_at pre l0' (body' ++ nlL :: post) start
+  have hn : (FW.next ⟨pre ++ l0' :: (body' ++ nlL :: post), pre.length, start⟩) =
+      ⟨(pre ++ [l0']) ++ (body' ++ nlL :: post), (pre ++ [l0']).length, start⟩ := by
+    simp [FW.next]
+  have hln : (FW.lineNumber ⟨(pre ++ [l0']) ++ (body' ++ nlL :: post), (pre ++ [l0']).length, start⟩) = start + pre.length := by
+    simp [FW.lineNumber]
+  have hind : IndentedAll W (body' ++ [nlL]) (body ++ [nlL]) :=
+    indentedAll_append W body' body [nlL] [nlL] hbody ⟨indentedAs_nl W nlL hnl, trivial⟩
+  have htn : trailNl 0 (body ++ [nlL]) = 1 := by rw [trailNl_append_nl body 0 nlL hnl, htr]
+  have hloop : itemLoop cfg W (FW.remaining ⟨pre ++ l0' :: (body' ++ nlL :: post), pre.length, start⟩ + 1)
+      ⟨(pre ++ [l0']) ++ (body' ++ nlL :: post), (pre ++ [l0']).length, start⟩ [{ s := content, origin := l0'.origin }] 0 =
+      .ok (body.reverse ++ [{ s := content, origin := l0'.origin }],
+        ⟨pre ++ l0' :: (body' ++ nlL :: post), pre.length + (body'.length + 1), start⟩, none) := by
+    rcases hpost with rfl | ⟨s, post', rfl, hnc, hnm, hne⟩
+    · have hfuel : (body' ++ [nlL]).length < FW.remaining ⟨pre ++ l0' :: (body' ++ [nlL]), pre.length, start⟩ + 1 := by
+        simp [FW.remaining]
+      have := itemLoop_indented cfg W start (body' ++ [nlL]) (body ++ [nlL]) (pre ++ [l0']) [{ s := content, origin := l0'.origin }] 0 _ hind hfuel
+      rw [this, htn]
+      simp [dropTrailing, FW.backstep]
+      omega
+    · have hfuel : (body' ++ [nlL]).length < FW.remaining ⟨pre ++ l0' :: (body' ++ nlL :: s :: post'), pre.length, start⟩ + 1 := by
+        simp [FW.remaining]; omega
+      have := itemLoop_then_stop cfg W start s post' hnc hnm hne (body' ++ [nlL]) (body ++ [nlL]) (pre ++ [l0'])
+        [{ s := content, origin := l0'.origin }] 0 _ hind hfuel (by rw [htn]; omega)
+      have e : (pre ++ [l0']) ++ (body' ++ nlL :: s :: post') = (pre ++ [l0']) ++ ((body' ++ [nlL]) ++ s :: post') := by simp
+      rw [e, this, htn]
+      simp [dropTrailing, FW.backstep]
+      omega
+  rcases hmk with rfl | ⟨rfl, h⟩
+  · unfold itemLines
+    simp only [hp, hnb, Bool.false_eq_true, if_false]
+    rw [hn, hloop, hln]
+    simp
+  · unfold itemLines
+    simp only [hp, h, hnb, Bool.false_eq_true, if_false]
+    rw [hn, hloop, hln]
+    simp
+
+
+/-! ### Marker lines -/
+
+theorem lead_noEarly {c : Char} (hc : LeadChar c) (r : Str) (htb : Scan.thematicBreak (c :: r) = false) : NoEarly (c :: r) := by
+  have := leadN_noEarly hc 0 (by omega) r (by simpa using htb)
+  simpa using this
+
+/-- `ListItem.read` on a line on which no earlier token type starts: no `check_interrupts_paragraph` fires
+    (`List` is not asked, `Table` is not asked for a line that carries a marker) -/
+theorem anyInterrupt_noEarly (cfg : Cfg) (fw : FW) (l : Line) (hp : fw.peek = some l) (hn : NoEarly l.s) :
+    ∀ ts, anyInterrupt cfg fw .list true ts = .ok false
+  | [] => rfl
+  | x :: ts => by
+    have ih := anyInterrupt_noEarly cfg fw l hp hn ts
+    simp only [anyInterrupt]
+    split
+    · exact ih
+    · rename_i hc
+      have : interruptsOne cfg fw x = .ok false := by
+        unfold interruptsOne
+        rw [hp]
+        cases x <;> simp [hn.hd, hn.qt, hn.cf, hn.tb, hn.html] at hc ⊢
+      rw [this]; exact ih
+
+/-- checkable form of `ListLeader` for the markers the writer produces: a bullet, or one to nine ASCII digits and "." or ")" -/
+def leaderOk (o : Bool) (m : Str) : Bool :=
+  if o then
+    (match m.getLast? with | some e => e == '.' || e == ')' | none => false)
+      && decide (1 ≤ m.dropLast.length) && decide (m.dropLast.length ≤ 9) && m.dropLast.all (fun x => asciiDigits.contains x)
+  else m == ['-'] || m == ['+'] || m == ['*']
+
+theorem leaderOk_ordered (m : Str) (h : leaderOk true m = true) :
+    ∃ d e, m = d ++ [e] ∧ (e = '.' ∨ e = ')') ∧ 1 ≤ d.length ∧ d.length ≤ 9 ∧ ∀ x ∈ d, x ∈ asciiDigits := by
+  simp only [leaderOk, if_true, Bool.and_eq_true, decide_eq_true_eq, List.all_eq_true, List.contains_iff_mem] at h
+  obtain ⟨⟨⟨h1, h2⟩, h3⟩, h4⟩ := h
+  cases hg : m.getLast? with
+  | none => rw [hg] at h1; cases h1
+  | some e =>
+    rw [hg] at h1
+    obtain ⟨d, rfl⟩ := List.getLast?_eq_some_iff.mp hg
+    simp only [List.dropLast_concat] at h2 h3 h4
+    simp only [Bool.or_eq_true, beq_iff_eq] at h1
+    exact ⟨d, e, rfl, h1, h2, h3, h4⟩
+
+theorem listLeader_of (o : Bool) (m : Str) (h : leaderOk o m = true) : ListLeader m := by
+  cases o with
+  | false =>
+    simp only [leaderOk, Bool.false_eq_true, if_false, Bool.or_eq_true, beq_iff_eq] at h
+    rcases h with (rfl | rfl) | rfl
+    · exact listLeader_bullet '-' (Or.inl rfl)
+    · exact listLeader_bullet '+' (Or.inr (Or.inl rfl))
+    · exact listLeader_bullet '*' (Or.inr (Or.inr rfl))
+  | true =>
+    obtain ⟨d, e, rfl, he, h1, h9, hd⟩ := leaderOk_ordered m h
+    exact listLeader_ordered d e h1 h9 hd he
+
+/-! ### Decimal numerals: `str(n)` and `int` -/
+
+open Mistletoe.Html (natDigits natDigitsAux decDigit) in
+section
+theorem foldl_parse (s : Str) : ∀ (a : Nat), s.foldl (fun n c => n * 10 + digitVal c) a = a * 10 ^ s.length + parseNat s := by
+  induction s with
+  | nil => intro a; simp [parseNat]
+  | cons c s ih =>
+    intro a
+    have h0 := ih (0 * 10 + digitVal c)
+    have h1 := ih (a * 10 + digitVal c)
+    simp only [parseNat, List.foldl_cons, List.length_cons] at h0 h1 ⊢
+    rw [h1, h0, Nat.pow_succ, Nat.zero_mul, Nat.zero_add, Nat.add_mul, Nat.mul_assoc a 10, Nat.mul_comm 10 (10 ^ s.length)]
+    omega
+
+theorem parseNat_cons (c : Char) (s : Str) : parseNat (c :: s) = digitVal c * 10 ^ s.length + parseNat s := by
+  have := foldl_parse s (0 * 10 + digitVal c)
+  simp only [Nat.zero_mul, Nat.zero_add] at this
+  simpa [parseNat] using this
+
+theorem decDigit_facts : ∀ d, d < 10 → digitVal (decDigit d) = d ∧ decDigit d ∈ asciiDigits := by decide +kernel
+
+theorem decDigit_mod (n : Nat) : digitVal (decDigit n) = n % 10 ∧ decDigit n ∈ asciiDigits := by
+  have h := decDigit_facts (n % 10) (Nat.mod_lt _ (by decide))
+  have e : decDigit n = decDigit (n % 10) := by simp [decDigit]
+  rw [e]; exact h
+
+theorem natDigitsAux_val : ∀ (fuel n : Nat) (acc : Str), n < 10 ^ (fuel + 1) →
+    parseNat (natDigitsAux fuel n acc) = n * 10 ^ acc.length + parseNat acc
+  | 0, n, acc, h => by
+    have hn : n < 10 := by simpa using h
+    simp only [natDigitsAux, parseNat_cons, (decDigit_mod n).1]
+    rw [Nat.mod_eq_of_lt hn]
+  | fuel + 1, n, acc, h => by
+    simp only [natDigitsAux]
+    split
+    · rename_i hn
+      simp only [parseNat_cons, (decDigit_mod n).1]
+      rw [Nat.mod_eq_of_lt hn]
+    · have h10 : n / 10 < 10 ^ (fuel + 1) := by
+        rw [Nat.div_lt_iff_lt_mul (by decide)]
+        rw [Nat.pow_succ] at h
+        exact h
+      rw [natDigitsAux_val fuel (n / 10) _ h10, parseNat_cons, (decDigit_mod n).1, List.length_cons, Nat.pow_succ]
+      have := Nat.div_add_mod n 10
+      have e : n / 10 * (10 ^ acc.length * 10) = (10 * (n / 10)) * 10 ^ acc.length := by
+        rw [Nat.mul_comm (10 ^ acc.length) 10, ← Nat.mul_assoc, Nat.mul_comm (n / 10) 10]
+      rw [e, ← Nat.add_assoc, ← Nat.add_mul, this]
+
+theorem lt_pow_succ (n : Nat) : n < 10 ^ (n + 1) := by
+  have := @Nat.lt_pow_self n 10 (by decide)
+  have h2 : 10 ^ n ≤ 10 ^ (n + 1) := Nat.pow_le_pow_right (by decide) (by omega)
+  omega
+
+/-- `int(str(n)) == n` -/
+theorem parseNat_natDigits (n : Nat) : parseNat (natDigits n) = n := by
+  have := natDigitsAux_val n n [] (lt_pow_succ n)
+  simpa [natDigits, parseNat] using this
+
+theorem natDigitsAux_shape : ∀ (fuel n : Nat) (acc : Str) (k : Nat), n < 10 ^ (k + 1) →
+    acc.length + 1 ≤ (natDigitsAux fuel n acc).length ∧ (natDigitsAux fuel n acc).length ≤ acc.length + (k + 1) ∧
+    ∀ x ∈ natDigitsAux fuel n acc, x ∈ asciiDigits ∨ x ∈ acc
+  | 0, n, acc, k, _ => by
+    simp only [natDigitsAux, List.length_cons, List.mem_cons]
+    refine ⟨by omega, by omega, ?_⟩
+    rintro x (rfl | hx)
+    · exact Or.inl (decDigit_mod n).2
+    · exact Or.inr hx
+  | fuel + 1, n, acc, k, h => by
+    simp only [natDigitsAux]
+    split
+    · simp only [List.length_cons, List.mem_cons]
+      refine ⟨by omega, by omega, ?_⟩
+      rintro x (rfl | hx)
+      · exact Or.inl (decDigit_mod n).2
+      · exact Or.inr hx
+    · rename_i hn
+      obtain ⟨k', rfl⟩ : ∃ k', k = k' + 1 := by
+        cases k with
+        | zero => simp at h; omega
+        | succ k' => exact ⟨k', rfl⟩
+      have h10 : n / 10 < 10 ^ (k' + 1) := by
+        rw [Nat.div_lt_iff_lt_mul (by decide)]
+        rw [Nat.pow_succ] at h
+        exact h
+      obtain ⟨a, b, c⟩ := natDigitsAux_shape fuel (n / 10) (decDigit n :: acc) k' h10
+      simp only [List.length_cons] at a b
+      refine ⟨by omega, by omega, ?_⟩
+      intro x hx
+      rcases c x hx with h | h
+      · exact Or.inl h
+      · rcases List.mem_cons.mp h with rfl | h
+        · exact Or.inl (decDigit_mod n).2
+        · exact Or.inr h
+
+/-- below 10⁹: one to nine ASCII digits -/
+theorem natDigits_shape (n : Nat) (h : n < 1000000000) :
+    1 ≤ (natDigits n).length ∧ (natDigits n).length ≤ 9 ∧ ∀ x ∈ natDigits n, x ∈ asciiDigits := by
+  obtain ⟨a, b, c⟩ := natDigitsAux_shape n n [] 8 (by simpa using h)
+  simp only [List.length_nil, Nat.zero_add] at a b
+  refine ⟨a, b, ?_⟩
+  intro x hx
+  rcases c x hx with h | h
+  · exact h
+  · simp at h
+end
+
 end Mistletoe.Block
+
+namespace Mistletoe.ComposeL
+open Mistletoe Mistletoe.Py Mistletoe.Scan Mistletoe.Compose
+open Mistletoe.Block hiding numbered numbered_cons numbered_append
+open Mistletoe.Props.C14 (defaultTypes inertLine numbered numbered_cons numbered_append numbered_length numbered_mem numbered_s)
+open Mistletoe.InertInline (inertBody inertText proseLine oneLine proseInlines inertClass)
+open Mistletoe.Props.C04 (indentDoc itemDocOk)
+open Mistletoe.Html (natDigits)
+
+/-! ### The fragment with lists -/
+
+/-- A tree of CommonMark constructs: `Compose.T` (paragraph, ATX heading, thematic break, block quote; see there) and
+    * `list ordered start marker pad loose items`: a bullet list (`ordered = false`, `marker` one of `-`, `+`, `*`) or an
+      ordered list (`ordered = true`: the items are numbered `start`, `start + 1`, …, each number followed by `marker`,
+      "." or ")"); `pad` spaces (1 … 4) follow every marker; an item is the list of its blocks; `loose = true`: one
+      "\n" line between consecutive items (`loose = false`: none). -/
+inductive T2 where
+  | para (lines : List Str)
+  | heading (level : Nat) (text : Str) (line : Str)
+  | hr (line : Str)
+  | quote (bare : Bool) (kids : List T2)
+  | list (ordered : Bool) (start : Nat) (marker : Char) (pad : Nat) (loose : Bool) (items : List (List T2))
+
+/-- the marker of the item numbered `n`: the bullet, or the decimal digits of `n` and the delimiter -/
+def leaderOf (ordered : Bool) (n : Nat) (mk : Char) : Str := if ordered then natDigits n ++ [mk] else [mk]
+
+/-- the marker the writer may use for the item numbered `n`: a bullet `-`, `+`, `*`, or a number below 10⁹ and `.` or `)` -/
+def markerOk (o : Bool) (n : Nat) (mk : Char) : Bool :=
+  if o then decide (n < 1000000000) && (mk == '.' || mk == ')') else (mk == '-' || mk == '+' || mk == '*')
+
+theorem leaderOk_of_marker (o : Bool) (n : Nat) (mk : Char) (h : markerOk o n mk = true) : leaderOk o (leaderOf o n mk) = true := by
+  cases o with
+  | false =>
+    simp only [markerOk, Bool.false_eq_true, if_false, Bool.or_eq_true, beq_iff_eq] at h
+    rcases h with (rfl | rfl) | rfl <;> decide
+  | true =>
+    simp only [markerOk, if_true, Bool.and_eq_true, decide_eq_true_eq] at h
+    obtain ⟨a, b, c⟩ := natDigits_shape n h.1
+    simp only [leaderOk, leaderOf, if_true, List.getLast?_concat, List.dropLast_concat, Bool.and_eq_true, decide_eq_true_eq,
+      List.all_eq_true, List.contains_iff_mem]
+    exact ⟨⟨⟨h.2, a⟩, b⟩, c⟩
+
+def sepS (b : Bool) : List Str := if b then [['\n']] else []
+
+mutual
+/-- the source lines of one node -/
+def write2 : T2 → List Str
+  | .para ls => ls
+  | .heading _ _ line => [line]
+  | .hr line => [line]
+  | .quote bare kids => (writes2 kids).map (if bare then qbare else qsp)
+  | .list o n mk pad loose items => writeItems o mk pad loose n items
+/-- siblings, separated by exactly one "\n" line -/
+def writes2 : List T2 → List Str
+  | [] => []
+  | t :: rest =>
+    match rest with
+    | [] => write2 t
+    | _ :: _ => write2 t ++ ['\n'] :: writes2 rest
+/-- the items of a list: the lines of the item's blocks, the first behind the marker and `pad` spaces, the others behind
+    as many spaces as that is wide ("\n" lines stay "\n"); in a loose list one "\n" line between consecutive items -/
+def writeItems (o : Bool) (mk : Char) (pad : Nat) (loose : Bool) (n : Nat) : List (List T2) → List Str
+  | [] => []
+  | it :: rest =>
+    match rest with
+    | [] => indentDoc (leaderOf o n mk) pad (writes2 it)
+    | _ :: _ => indentDoc (leaderOf o n mk) pad (writes2 it) ++ (sepS loose ++ writeItems o mk pad loose (n + 1) rest)
+end
+
+def isList : T2 → Bool
+  | .list .. => true
+  | _ => false
+
+def lineOkB (l : Str) : Bool := oneLine l && !l.contains '\t'
+
+/-- a line that may follow the "\n" line after a list: it begins with a character that is not whitespace (so it does
+    not continue the last item), carries no list marker (adjacent lists are excluded: recorded finding), ends with
+    its only newline -/
+def stopLineB (s : Str) : Bool :=
+  (match s with | c :: _ => !pyIsSpace c | [] => false) && (parseMarker s).isNone && lineOkB s
+
+/-- what is asked of two consecutive siblings: behind a list no list, and a first line that is a `stopLineB` -/
+def sepOk (t t' : T2) : Bool := !isList t || (!isList t' && stopLineB ((write2 t').headD []))
+
+open Mistletoe.Document (joinNl) in
+mutual
+/-- well-formedness (decidable).  Paragraph, heading, thematic break, quote: as `Compose.T.ok`.  List:
+    * 1 ≤ pad ≤ 4; at least one item; every item has at least one block, all well-formed;
+    * every marker is a bullet `-`, `+`, `*`, or a number of at most nine digits (< 10⁹) and `.` or `)` (`markerOk`);
+    * the lines of an item (`itemDocOk`): the first begins with a character that is not whitespace; every other line is
+      "\n" or has a non-whitespace character after its spaces (`ContLine`); marker + first line is not a thematic break
+      (`* * *`, `- - -`);
+    * `loose` is the looseness the specification assigns: a loose list has two or more items or an item with two or
+      more blocks; the items of a tight list have one block each;
+    * every written line ends with its only line boundary and contains no tab.
+    Siblings (`T2.oks`): a list is not followed by a list, and the block that follows a list begins with a
+    non-whitespace character and carries no list marker (`sepOk`). -/
+def T2.ok : T2 → Bool
+  | .para ls => !ls.isEmpty && ls.all (fun l => inertLine l && proseLine l && oneLine l && !l.contains '\t')
+      && inertBody (joinNl (ls.map strip))
+  | .heading lv t line => !t.isEmpty && inertText t && headLine lv t line && oneLine line && !line.contains '\t'
+  | .hr line => hrLine line && oneLine line && !line.contains '\t'
+  | .quote bare kids => !kids.isEmpty && T2.oks kids && (!bare || (writes2 kids).all (fun s => s.head? != some ' '))
+  | .list o n mk pad loose items =>
+    decide (1 ≤ pad) && decide (pad ≤ 4) && !items.isEmpty && T2.okItems o mk pad n items
+      && (if loose then decide (2 ≤ items.length) || items.any (fun it => decide (1 < it.length))
+          else items.all (fun it => it.length == 1))
+      && (writeItems o mk pad loose n items).all lineOkB
+def T2.oks : List T2 → Bool
+  | [] => true
+  | t :: rest => t.ok && T2.oks rest && (match rest with | [] => true | t' :: _ => sepOk t t')
+def T2.okItems (o : Bool) (mk : Char) (pad : Nat) (n : Nat) : List (List T2) → Bool
+  | [] => true
+  | it :: rest => !it.isEmpty && T2.oks it && markerOk o n mk && itemDocOk (writes2 it)
+      && !Scan.thematicBreak (leaderOf o n mk ++ List.replicate pad ' ' ++ (writes2 it).headD [])
+      && T2.okItems o mk pad (n + 1) rest
+end
+
+mutual
+/-- the parse-buffer entry expected for a node whose first line is line `n` -/
+def entry2 (n : Nat) : T2 → Entry
+  | .para ls => .paragraph ls n n
+  | .heading lv t line => .heading lv t (closingOf line) n n
+  | .hr line => .thematicBreak line n n
+  | .quote _ kids => .quote (entries2 n kids) (decide (1 < kids.length)) n n
+  | .list o s mk pad loose items => .list (items2 o mk pad loose s n items) n n
+def entries2 (n : Nat) : List T2 → List Entry
+  | [] => []
+  | t :: rest => entry2 n t :: entries2 (n + (write2 t).length + 1) rest
+/-- the items: content = the entries of the item's blocks; loose = a "\n" line follows inside the list, or the item has
+    more than one block; indentation 0; content offset = marker width + pad; the marker; the line of the marker -/
+def items2 (o : Bool) (mk : Char) (pad : Nat) (loose : Bool) (s : Nat) (n : Nat) : List (List T2) → List Item
+  | [] => []
+  | it :: rest =>
+    .mk (entries2 n it) ((loose && !rest.isEmpty) || decide (1 < it.length)) 0 ((leaderOf o s mk).length + pad) (leaderOf o s mk) n n
+      :: items2 o mk pad loose (s + 1) (n + (writes2 it).length + (sepS loose).length) rest
+end
+
+mutual
+/-- a quote occurs among the blocks (at any depth of list nesting): `Quote.read` switches `Paragraph.parse_setext` back on -/
+def touch : T2 → Bool
+  | .quote _ _ => true
+  | .list _ _ _ _ _ items => touchItems items
+  | _ => false
+def touches : List T2 → Bool
+  | [] => false
+  | t :: rest => touch t || touches rest
+def touchItems : List (List T2) → Bool
+  | [] => false
+  | it :: rest => touches it || touchItems rest
+end
+
+mutual
+/-- gas that suffices -/
+def need2 : T2 → Nat
+  | .para _ => 14
+  | .heading _ _ _ => 14
+  | .hr _ => 14
+  | .quote _ kids => needs2 kids + 6
+  | .list _ _ _ _ _ items => needItems items + 12
+def needs2 : List T2 → Nat
+  | [] => 0
+  | t :: rest => need2 t + needs2 rest + 14
+def needItems : List (List T2) → Nat
+  | [] => 0
+  | it :: rest => needs2 it + needItems rest + 1
+end
+
+
+/-! ### `ListItem.read` on a written item -/
+
+/-- a line that may stand behind the "\n" line that follows a list -/
+structure StopLine (s : Str) : Prop where
+  cont : ∀ W, 1 ≤ W → parseContinuation s W = none
+  mark : parseMarker s = none
+  nl : NlEnd s
+
+theorem stopLine_of (s : Str) (h : stopLineB s = true) : StopLine s := by
+  simp only [stopLineB, lineOkB, Bool.and_eq_true, Option.isNone_iff_eq_none, Bool.not_eq_eq_eq_not, Bool.not_true] at h
+  obtain ⟨⟨h1, h2⟩, h3, h4⟩ := h
+  refine ⟨?_, h2, lineOk_nlEnd (lineOk_of s h3 h4)⟩
+  intro W hW
+  cases s with
+  | nil => simp at h1
+  | cons c r =>
+    simp only [Bool.not_eq_eq_eq_not, Bool.not_true] at h1
+    exact parseContinuation_lead c r W hW (by rintro rfl; revert h1; decide) (by rintro rfl; revert h1; decide)
+      (by rintro rfl; revert h1; decide)
+
+/-- what follows the lines of a list in its buffer: nothing, or a "\n" line and then nothing or a `StopLine` -/
+def PostOk (post : List Line) : Prop :=
+  post = [] ∨ ∃ nlL rest, post = nlL :: rest ∧ nlL.s = ['\n'] ∧ ∀ s, rest.head? = some s → StopLine s.s
+
+/-- what `itemDocOk` says -/
+theorem itemDoc_facts (c0 : Str) (cs : List Str) (h : itemDocOk (c0 :: cs) = true) :
+    (∃ ch r0, c0 = ch :: r0 ∧ pyIsSpace ch = false) ∧ (∀ s ∈ cs, s = ['\n'] ∨ ContLine s) ∧ cs.getLast? ≠ some ['\n'] := by
+  simp only [itemDocOk, Bool.and_eq_true, List.all_eq_true, Bool.or_eq_true, beq_iff_eq, bne_iff_ne, ne_eq] at h
+  obtain ⟨⟨h0, hall⟩, hlast⟩ := h
+  refine ⟨?_, ?_, hlast⟩
+  · cases c0 with
+    | nil => simp at h0
+    | cons ch r0 =>
+      simp only [Bool.not_eq_eq_eq_not, Bool.not_true] at h0
+      exact ⟨ch, r0, rfl, h0⟩
+  · intro s hs
+    rcases hall s hs with h | h
+    · exact Or.inl h
+    · exact Or.inr (contLine_of _ h)
+
+theorem numbered_indentDoc (m : Str) (pad : Nat) (c0 : Str) (cs : List Str) (k : Nat) :
+    numbered k (indentDoc m pad (c0 :: cs)) =
+      markLine m pad { s := c0, origin := k + 1 } :: (numbered (k + 1) cs).map (indentLine (m.length + pad)) := by
+  simp only [indentDoc, numbered_cons, Props.C04.numbered_map_indent]
+  rfl
+
+theorem numbered_sep_true (k : Nat) : numbered k (sepS true) = [{ s := ['\n'], origin := k + 1 }] := rfl
+theorem numbered_sep_false (k : Nat) : numbered k (sepS false) = [] := rfl
+
+theorem trailNl_numbered (k : Nat) (cs : List Str) (h : cs.getLast? ≠ some ['\n']) : trailNl 0 (numbered k cs) = 0 := by
+  apply trailNl_zero
+  · intro l hl hs
+    apply h
+    have : (numbered k cs).map (·.s) = cs := numbered_s _ _
+    rw [← this, List.getLast?_map, hl, Option.map_some, hs]
+  · intro _; rfl
+
+theorem indented_numbered (W k : Nat) (cs : List Str) (h : ∀ s ∈ cs, s = ['\n'] ∨ ContLine s) :
+    IndentedAll W ((numbered k cs).map (indentLine W)) (numbered k cs) :=
+  indentedAll_map W _ (fun l hl => h _ (numbered_mem k cs l hl))
+
+/-- `ListItem.read` on the last item of a written list -/
+theorem item_lines_last (cfg : Cfg) (m : Str) (hm : ListLeader m) (pad : Nat) (h1 : 1 ≤ pad) (h4 : pad ≤ 4)
+    (c0 : Str) (cs : List Str) (hdoc : itemDocOk (c0 :: cs) = true)
+    (pre post : List Line) (start k : Nat) (hk : start + pre.length = k + 1) (hpost : PostOk post)
+    (prev : Option (Nat × Nat × Str × Str)) (hprev : prev = none ∨ prev = some (0, m.length + pad, m, c0)) :
+    itemLines cfg ⟨pre ++ numbered k (indentDoc m pad (c0 :: cs)) ++ post, pre.length, start⟩ prev =
+      .ok (.lines (numbered k (c0 :: cs)) (k + 1) 0 (m.length + pad) m (k + 1) (k + 1) none
+        ⟨pre ++ numbered k (indentDoc m pad (c0 :: cs)) ++ post, pre.length + (cs.length + 1), start⟩) := by
+  obtain ⟨⟨ch, r0, rfl, hch⟩, hcont, hlast⟩ := itemDoc_facts c0 cs hdoc
+  have hpm : parseMarker (markLine m pad { s := ch :: r0, origin := k + 1 }).s = some (0, m.length + pad, m, ch :: r0) :=
+    parseMarker_first m hm pad h1 h4 ch r0 hch
+  have hmk : prev = some (0, m.length + pad, m, ch :: r0) ∨
+      (prev = none ∧ parseMarker (markLine m pad { s := ch :: r0, origin := k + 1 }).s = some (0, m.length + pad, m, ch :: r0)) := by
+    rcases hprev with h | h
+    · exact Or.inr ⟨h, hpm⟩
+    · exact Or.inl h
+  have hnb : isBlank (ch :: r0) = false := by simp [isBlank, hch]
+  have hind := indented_numbered (m.length + pad) (k + 1) cs hcont
+  have htr := trailNl_numbered (k + 1) cs hlast
+  rw [numbered_indentDoc, numbered_cons]
+  rcases hpost with rfl | ⟨nlL, rest, rfl, hnl, hstop⟩
+  · have := itemLines_core cfg 0 (m.length + pad) m (ch :: r0) (markLine m pad { s := ch :: r0, origin := k + 1 })
+      ((numbered (k + 1) cs).map (indentLine (m.length + pad))) (numbered (k + 1) cs) [] pre start prev hmk hnb hind none
+      (Or.inl ⟨rfl, rfl, htr⟩)
+    simp only [List.append_nil, List.length_map, numbered_length] at this ⊢
+    rw [this, hk]
+    rfl
+  · have := itemLines_trail cfg 0 (m.length + pad) m (ch :: r0) (markLine m pad { s := ch :: r0, origin := k + 1 }) nlL
+      ((numbered (k + 1) cs).map (indentLine (m.length + pad))) (numbered (k + 1) cs) rest pre start prev hmk hnb hind htr hnl
+      (by
+        cases rest with
+        | nil => exact Or.inl rfl
+        | cons s post' =>
+          have hs := hstop s rfl
+          exact Or.inr ⟨s, post', rfl, hs.cont _ (by omega), hs.mark, hs.nl⟩)
+    simp only [List.length_map, numbered_length, List.append_assoc, List.cons_append] at this ⊢
+    rw [this, hk]
+    rfl
+
+/-- `ListItem.read` on an item that is followed (in a loose list: after a "\n" line) by the marker line of the next item -/
+theorem item_lines_next (cfg : Cfg) (m : Str) (hm : ListLeader m) (pad : Nat) (h1 : 1 ≤ pad) (h4 : pad ≤ 4)
+    (c0 : Str) (cs : List Str) (hdoc : itemDocOk (c0 :: cs) = true) (sep : Bool)
+    (pre post' : List Line) (l' : Line) (start k : Nat) (hk : start + pre.length = k + 1)
+    (mm : Nat × Nat × Str × Str) (hnc : parseContinuation l'.s (m.length + pad) = none) (hpm' : parseMarker l'.s = some mm)
+    (hne : NoEarly l'.s)
+    (prev : Option (Nat × Nat × Str × Str)) (hprev : prev = none ∨ prev = some (0, m.length + pad, m, c0)) :
+    itemLines cfg ⟨pre ++ numbered k (indentDoc m pad (c0 :: cs) ++ sepS sep) ++ l' :: post', pre.length, start⟩ prev =
+      .ok (.lines (numbered k (c0 :: cs ++ sepS sep)) (k + 1) 0 (m.length + pad) m (k + 1) (k + 1) (some mm)
+        ⟨pre ++ numbered k (indentDoc m pad (c0 :: cs) ++ sepS sep) ++ l' :: post', pre.length + (cs.length + 1 + (sepS sep).length), start⟩) := by
+  obtain ⟨⟨ch, r0, rfl, hch⟩, hcont, hlast⟩ := itemDoc_facts c0 cs hdoc
+  have hpm : parseMarker (markLine m pad { s := ch :: r0, origin := k + 1 }).s = some (0, m.length + pad, m, ch :: r0) :=
+    parseMarker_first m hm pad h1 h4 ch r0 hch
+  have hmk : prev = some (0, m.length + pad, m, ch :: r0) ∨
+      (prev = none ∧ parseMarker (markLine m pad { s := ch :: r0, origin := k + 1 }).s = some (0, m.length + pad, m, ch :: r0)) := by
+    rcases hprev with h | h
+    · exact Or.inr ⟨h, hpm⟩
+    · exact Or.inl h
+  have hnb : isBlank (ch :: r0) = false := by simp [isBlank, hch]
+  have hind := indented_numbered (m.length + pad) (k + 1) cs hcont
+  have hlen : (indentDoc m pad ((ch :: r0) :: cs)).length = cs.length + 1 := by simp [indentDoc]
+  have hsepI : IndentedAll (m.length + pad) (numbered (k + (cs.length + 1)) (sepS sep)) (numbered (k + (cs.length + 1)) (sepS sep)) := by
+    cases sep with
+    | false => trivial
+    | true => exact ⟨indentedAs_nl _ _ rfl, trivial⟩
+  have hind2 := indentedAll_append (m.length + pad) _ _ _ _ hind hsepI
+  have := itemLines_core cfg 0 (m.length + pad) m (ch :: r0) (markLine m pad { s := ch :: r0, origin := k + 1 })
+    ((numbered (k + 1) cs).map (indentLine (m.length + pad)) ++ numbered (k + (cs.length + 1)) (sepS sep))
+    (numbered (k + 1) cs ++ numbered (k + (cs.length + 1)) (sepS sep)) (l' :: post') pre start prev hmk hnb hind2 (some mm)
+    (Or.inr ⟨l', post', mm, rfl, rfl, hnc, hpm', fun fw hp => anyInterrupt_noEarly cfg fw l' hp hne cfg.types⟩)
+  rw [numbered_append, hlen, numbered_indentDoc]
+  have e2 : numbered k ((ch :: r0) :: (cs ++ sepS sep)) =
+      { s := ch :: r0, origin := k + 1 } :: (numbered (k + 1) cs ++ numbered (k + (cs.length + 1)) (sepS sep)) := by
+    rw [numbered_cons, numbered_append]
+    have : k + 1 + cs.length = k + (cs.length + 1) := by omega
+    rw [this]
+  have e3 : cs.length + (sepS sep).length + 1 = cs.length + 1 + (sepS sep).length := by omega
+  simp only [List.length_map, numbered_length, List.append_assoc, List.cons_append, List.length_append] at this ⊢
+  rw [this, hk, e2, e3]
+  rfl
+
+/-! ### `List.read`: one item -/
+
+/-- the last item: no next marker -/
+theorem readList_step_stop (cfg : Cfg) (g : Nat) (fw : FW) (st : St) (ld : Option Str) (nm : Option (Nat × Nat × Str × Str))
+    (acc : List Item) (buf : List Line) (cs ind W : Nat) (m : Str) (ln og : Nat) (fw' : FW) (b : Buf) (st' : St)
+    (hom : otherMarkerType ld nm = false)
+    (hil : itemLines cfg fw nm = .ok (.lines buf cs ind W m ln og none fw'))
+    (htok : tokenizeBlock cfg g buf cs st = .ok (b, st')) :
+    readList cfg (g + 1) fw st ld nm acc =
+      .ok (acc.reverse ++ [Item.mk b.entries (decide (b.entries.length > 1) && b.loose) ind W m ln og], fw', st') := by
+  simp only [readList, hom, Bool.false_eq_true, ↓reduceIte, hil, htok]
+  cases ld <;> simp
+
+/-- an item that is followed by the marker of the next one: `List.read` goes on with the first item's marker as leader -/
+theorem readList_step_next (cfg : Cfg) (g : Nat) (fw : FW) (st : St) (ld : Option Str) (nm : Option (Nat × Nat × Str × Str))
+    (acc : List Item) (buf : List Line) (cs ind W : Nat) (m : Str) (ln og : Nat) (mm : Nat × Nat × Str × Str) (fw' : FW) (b : Buf) (st' : St)
+    (hom : otherMarkerType ld nm = false)
+    (hil : itemLines cfg fw nm = .ok (.lines buf cs ind W m ln og (some mm) fw'))
+    (htok : tokenizeBlock cfg g buf cs st = .ok (b, st')) :
+    readList cfg (g + 1) fw st ld nm acc =
+      readList cfg g fw' st' (some (ld.getD m)) (some mm) (Item.mk b.entries b.loose ind W m ln og :: acc) := by
+  simp only [readList, hom, Bool.false_eq_true, ↓reduceIte, hil, htok]
+  cases ld <;> simp
+
+
+/-! ### What well-formedness gives -/
+
+theorem oks2_cons (t : T2) (rest : List T2) (h : T2.oks (t :: rest) = true) :
+    t.ok = true ∧ T2.oks rest = true ∧ ∀ t' r, rest = t' :: r → sepOk t t' = true := by
+  simp only [T2.oks, Bool.and_eq_true] at h
+  refine ⟨h.1.1, h.1.2, ?_⟩
+  rintro t' r rfl
+  exact h.2
+
+theorem okItems_cons (o : Bool) (mk : Char) (pad n : Nat) (it : List T2) (rest : List (List T2))
+    (h : T2.okItems o mk pad n (it :: rest) = true) :
+    it ≠ [] ∧ T2.oks it = true ∧ leaderOk o (leaderOf o n mk) = true ∧ itemDocOk (writes2 it) = true ∧
+    Scan.thematicBreak (leaderOf o n mk ++ List.replicate pad ' ' ++ (writes2 it).headD []) = false ∧
+    T2.okItems o mk pad (n + 1) rest = true := by
+  simp only [T2.okItems, Bool.and_eq_true, Bool.not_eq_eq_eq_not, Bool.not_true, List.isEmpty_eq_false_iff] at h
+  obtain ⟨⟨⟨⟨⟨a, b⟩, c⟩, d⟩, e⟩, f⟩ := h
+  exact ⟨a, b, leaderOk_of_marker o n mk c, d, e, f⟩
+
+/-- the facts `T2.ok` packs for a list -/
+structure ListOk (o : Bool) (n : Nat) (mk : Char) (pad : Nat) (loose : Bool) (items : List (List T2)) : Prop where
+  p1 : 1 ≤ pad
+  p4 : pad ≤ 4
+  ne : items ≠ []
+  its : T2.okItems o mk pad n items = true
+  looseC : (if loose then decide (2 ≤ items.length) || items.any (fun it => decide (1 < it.length))
+          else items.all (fun it => it.length == 1)) = true
+  lines : ∀ l ∈ writeItems o mk pad loose n items, LineOk l
+  start : o = true → parseNat (natDigits n) = n
+
+theorem listOk_of (o : Bool) (n : Nat) (mk : Char) (pad : Nat) (loose : Bool) (items : List (List T2))
+    (h : (T2.list o n mk pad loose items).ok = true) : ListOk o n mk pad loose items := by
+  simp only [T2.ok, Bool.and_eq_true, decide_eq_true_eq, Bool.not_eq_eq_eq_not, Bool.not_true, List.isEmpty_eq_false_iff,
+    List.all_eq_true] at h
+  obtain ⟨⟨⟨⟨⟨a, b⟩, c⟩, d⟩, e⟩, f⟩ := h
+  refine ⟨a, b, c, d, e, ?_, fun _ => parseNat_natDigits n⟩
+  intro l hl
+  have := f l hl
+  simp only [lineOkB, Bool.and_eq_true, Bool.not_eq_eq_eq_not, Bool.not_true] at this
+  exact lineOk_of l this.1 this.2
+
+theorem indentDoc_ne (m : Str) (pad : Nat) (ls : List Str) (h : ls ≠ []) : indentDoc m pad ls ≠ [] := by
+  cases ls with
+  | nil => exact absurd rfl h
+  | cons a b => simp [indentDoc]
+
+theorem itemDocOk_ne (ls : List Str) (h : itemDocOk ls = true) : ls ≠ [] := by
+  rintro rfl; simp [itemDocOk] at h
+
+theorem writeItems_ne (o : Bool) (mk : Char) (pad : Nat) (loose : Bool) (n : Nat) (it : List T2) (rest : List (List T2))
+    (h : itemDocOk (writes2 it) = true) : writeItems o mk pad loose n (it :: rest) ≠ [] := by
+  have := indentDoc_ne (leaderOf o n mk) pad _ (itemDocOk_ne _ h)
+  cases rest with
+  | nil => simpa [writeItems] using this
+  | cons a b => simp [writeItems, this]
+
+theorem quoteOk2_of (bare : Bool) (kids : List T2) (h : (T2.quote bare kids).ok = true) :
+    kids ≠ [] ∧ T2.oks kids = true ∧ (bare = true → ∀ s ∈ writes2 kids, s.head? ≠ some ' ') := by
+  simp only [T2.ok, Bool.and_eq_true, Bool.not_eq_eq_eq_not, Bool.not_true, List.isEmpty_eq_false_iff,
+    Bool.or_eq_true, List.all_eq_true, bne_iff_ne, ne_eq] at h
+  refine ⟨h.1.1, h.1.2, ?_⟩
+  intro hb
+  rcases h.2 with h2 | h2
+  · rw [hb] at h2; cases h2
+  · exact h2
+
+theorem writes2_cons2 (t t' : T2) (r : List T2) : writes2 (t :: t' :: r) = write2 t ++ ['\n'] :: writes2 (t' :: r) := by
+  simp [writes2]
+
+theorem writes2_single (t : T2) : writes2 [t] = write2 t := by simp [writes2]
+
+mutual
+theorem write2_lineOk : ∀ (t : T2), t.ok = true → (∀ s ∈ write2 t, LineOk s) ∧ write2 t ≠ []
+  | .para ls, h => by
+    have := paraOk_of ls (by simpa [T2.ok, T.ok] using h)
+    exact ⟨this.line, this.ne⟩
+  | .heading lv t line, h => by
+    have := headOk_of lv t line (by simpa [T2.ok, T.ok] using h)
+    simp only [write2, List.mem_singleton]
+    exact ⟨fun s hs => by rw [hs]; exact this.line, by simp⟩
+  | .hr line, h => by
+    have := hrOk_of line (by simpa [T2.ok, T.ok] using h)
+    simp only [write2, List.mem_singleton]
+    exact ⟨fun s hs => by rw [hs]; exact this.2, by simp⟩
+  | .quote bare kids, h => by
+    obtain ⟨hne, hk, _⟩ := quoteOk2_of bare kids h
+    have ih := writes2_lineOk kids hk
+    simp only [write2, List.mem_map]
+    constructor
+    · rintro s ⟨s0, hs0, rfl⟩
+      cases bare
+      · exact lineOk_qsp (ih.1 s0 hs0)
+      · exact lineOk_qbare (ih.1 s0 hs0)
+    · simpa using ih.2 hne
+  | .list o n mk pad loose items, h => by
+    have hl := listOk_of o n mk pad loose items h
+    refine ⟨hl.lines, ?_⟩
+    simp only [write2]
+    cases items with
+    | nil => exact absurd rfl hl.ne
+    | cons it rest => exact writeItems_ne o mk pad loose n it rest (okItems_cons o mk pad n it rest hl.its).2.2.2.1
+theorem writes2_lineOk : ∀ (ts : List T2), T2.oks ts = true → (∀ s ∈ writes2 ts, LineOk s) ∧ (ts ≠ [] → writes2 ts ≠ [])
+  | [], _ => by simp [writes2]
+  | t :: rest, h => by
+    obtain ⟨h1, h2, _⟩ := oks2_cons t rest h
+    have iht := write2_lineOk t h1
+    have ihr := writes2_lineOk rest h2
+    cases rest with
+    | nil => simpa [writes2] using iht
+    | cons t' r =>
+      rw [writes2_cons2]
+      constructor
+      · intro s hs
+        rcases List.mem_append.mp hs with hs | hs
+        · exact iht.1 s hs
+        · rcases List.mem_cons.mp hs with rfl | hs
+          · exact lineOk_nl
+          · exact ihr.1 s hs
+      · intro _; simp
+end
+
+
+/-! ### The claims -/
+
+/-- one node that is not a list, alone in its buffer -/
+def NodeClaim (ti : Bool) (t : T2) : Prop := ∀ (k : Nat) (st : St) (gas : Nat), need2 t ≤ gas →
+  tokenizeBlock (dcfg ti) gas (numbered k (write2 t)) (k + 1) st =
+    .ok ({ entries := [entry2 (k + 1) t], loose := false }, after st (touch t))
+
+/-- siblings in a buffer of their own, with or without a final "\n" line (the buffer of an item that is not the last
+    one of a loose list ends in one) -/
+def NodesClaim (ti : Bool) (ts : List T2) : Prop := ∀ (tail : Bool) (k : Nat) (st : St) (gas : Nat), needs2 ts ≤ gas →
+  tokenizeBlock (dcfg ti) gas (numbered k (writes2 ts ++ sepS tail)) (k + 1) st =
+    .ok ({ entries := entries2 (k + 1) ts, loose := decide (1 < ts.length) || tail }, after st (touches ts))
+
+def firstLine (items : List (List T2)) : Str :=
+  match items with
+  | it :: _ => (writes2 it).headD []
+  | [] => []
+
+/-- `List.read` entered on the first item (no leader, no marker yet), or re-entered on a later item (the first item's
+    marker as leader, the marker of this item handed on by the previous `ListItem.read`) -/
+def LdNm (o : Bool) (mk : Char) (pad n : Nat) (items : List (List T2)) (ld : Option Str) (nm : Option (Nat × Nat × Str × Str)) : Prop :=
+  (ld = none ∧ nm = none) ∨
+  (∃ n0, ld = some (leaderOf o n0 mk) ∧ leaderOk o (leaderOf o n0 mk) = true ∧
+    nm = some (0, (leaderOf o n mk).length + pad, leaderOf o n mk, firstLine items))
+
+/-- `List.read` over the written items, anywhere in a buffer: `pre` before them, `post` behind them -/
+def ItemsClaim (ti : Bool) (o : Bool) (mk : Char) (pad : Nat) (loose : Bool) (n : Nat) (items : List (List T2)) : Prop :=
+  ∀ (pre post : List Line) (start k : Nat) (st : St) (gas : Nat) (acc : List Item) ld nm,
+    start + pre.length = k + 1 → needItems items ≤ gas → PostOk post → LdNm o mk pad n items ld nm →
+    readList (dcfg ti) gas ⟨pre ++ numbered k (writeItems o mk pad loose n items) ++ post, pre.length, start⟩ st ld nm acc =
+      .ok (acc.reverse ++ items2 o mk pad loose n (k + 1) items,
+           ⟨pre ++ numbered k (writeItems o mk pad loose n items) ++ post,
+            pre.length + (writeItems o mk pad loose n items).length, start⟩,
+           after st (touchItems items))
+
+theorem after_after (st : St) (a b : Bool) : after (after st a) b = after st (a || b) := by
+  simp [after, Bool.or_assoc]
+
+mutual
+theorem entry2_shift (j : Nat) : ∀ (n : Nat) (t : T2), shiftEntry j (entry2 n t) = entry2 (n + j) t
+  | n, .para ls => by simp [entry2, shiftEntry]
+  | n, .heading lv t line => by simp [entry2, shiftEntry]
+  | n, .hr line => by simp [entry2, shiftEntry]
+  | n, .quote _ kids => by simp [entry2, shiftEntry, entries2_shift j n kids]
+  | n, .list o s mk pad loose items => by simp [entry2, shiftEntry, items2_shift j o mk pad loose s n items]
+theorem entries2_shift (j : Nat) : ∀ (n : Nat) (ts : List T2), shiftEntries j (entries2 n ts) = entries2 (n + j) ts
+  | n, [] => by simp [entries2, shiftEntries]
+  | n, t :: rest => by
+    simp only [entries2, shiftEntries, entry2_shift j n t, entries2_shift j _ rest]
+    congr 2; omega
+theorem items2_shift (j : Nat) (o : Bool) (mk : Char) (pad : Nat) (loose : Bool) : ∀ (s n : Nat) (items : List (List T2)),
+    shiftItems j (items2 o mk pad loose s n items) = items2 o mk pad loose s (n + j) items
+  | s, n, [] => by simp [items2, shiftItems]
+  | s, n, it :: rest => by
+    simp only [items2, shiftItems, shiftItem, entries2_shift j n it, items2_shift j o mk pad loose _ _ rest]
+    congr 2; omega
+end
+
+theorem entries2_length (n : Nat) : ∀ (ts : List T2), (entries2 n ts).length = ts.length := by
+  intro ts
+  induction ts generalizing n with
+  | nil => rfl
+  | cons t rest ih => simp [entries2, ih]
+
+theorem closed_entry2 (n : Nat) : ∀ (t : T2), isList t = false → closedE (entry2 n t) = true
+  | .para _, _ => rfl
+  | .heading _ _ _, _ => rfl
+  | .hr _, _ => rfl
+  | .quote _ _, _ => rfl
+  | .list .., h => by simp [isList] at h
+
+theorem writeItems_single (o : Bool) (mk : Char) (pad : Nat) (loose : Bool) (n : Nat) (it : List T2) :
+    writeItems o mk pad loose n [it] = indentDoc (leaderOf o n mk) pad (writes2 it) := by simp [writeItems]
+
+theorem writeItems_cons2 (o : Bool) (mk : Char) (pad : Nat) (loose : Bool) (n : Nat) (it it' : List T2) (r : List (List T2)) :
+    writeItems o mk pad loose n (it :: it' :: r) =
+      indentDoc (leaderOf o n mk) pad (writes2 it) ++ (sepS loose ++ writeItems o mk pad loose (n + 1) (it' :: r)) := by
+  simp [writeItems]
+
+theorem writeItems_head (o : Bool) (mk : Char) (pad : Nat) (loose : Bool) (n : Nat) (it : List T2) (rest : List (List T2))
+    (c0 : Str) (cs : List Str) (h : writes2 it = c0 :: cs) :
+    ∃ tl, writeItems o mk pad loose n (it :: rest) = (leaderOf o n mk ++ List.replicate pad ' ' ++ c0) :: tl := by
+  cases rest with
+  | nil => rw [writeItems_single, h]; exact ⟨_, rfl⟩
+  | cons a b => rw [writeItems_cons2, h]; exact ⟨_, rfl⟩
+
+theorem otherMarker_of_ldnm (o : Bool) (mk : Char) (pad n : Nat) (items : List (List T2)) (ld nm)
+    (h : LdNm o mk pad n items ld nm) (hok : leaderOk o (leaderOf o n mk) = true) : otherMarkerType ld nm = false := by
+  rcases h with ⟨rfl, _⟩ | ⟨n0, rfl, h0, rfl⟩
+  · exact otherMarkerType_none_left _
+  · simp only [otherMarkerType, Bool.not_eq_eq_eq_not, Bool.not_false]
+    cases o with
+    | false => simp [leaderOf, sameMarkerType]
+    | true =>
+      obtain ⟨d, e, hd, _, h1, _, hdig⟩ := leaderOk_ordered _ h0
+      obtain ⟨d', e', hd', _, h1', _, hdig'⟩ := leaderOk_ordered _ hok
+      simp only [leaderOf, if_true] at hd hd' ⊢
+      have e1 : natDigits n0 = d ∧ mk = e := by
+        have := List.append_inj' hd (by simp)
+        exact ⟨this.1, by simpa using this.2⟩
+      have e2 : natDigits n = d' ∧ mk = e' := by
+        have := List.append_inj' hd' (by simp)
+        exact ⟨this.1, by simpa using this.2⟩
+      have hl : ((natDigits n0 ++ [mk]).length == 1) = false := by
+        rw [e1.1]; simp only [List.length_append, List.length_singleton, beq_eq_false_iff_ne, ne_eq]; omega
+      simp only [sameMarkerType, hl, Bool.false_eq_true, if_false, List.dropLast_concat, List.getLast?_concat,
+        Bool.and_eq_true, List.all_eq_true, Bool.not_eq_eq_eq_not, Bool.not_true, List.isEmpty_eq_false_iff, beq_self_eq_true, and_true]
+      rw [e1.1, e2.1]
+      refine ⟨⟨⟨?_, ?_⟩, ?_⟩, ?_⟩
+      · intro x hx; exact (asciiDigit_facts x (hdig x hx)).1
+      · intro x hx; exact (asciiDigit_facts x (hdig' x hx)).1
+      · intro e; subst e; simp at h1
+      · intro e; subst e; simp at h1'
+
+
+/-! ### `List.read` over the written items -/
+
+theorem needItems_cons (it : List T2) (rest : List (List T2)) : needItems (it :: rest) = needs2 it + needItems rest + 1 := by
+  simp [needItems]
+
+/-- the last item -/
+theorem items_last (ti : Bool) (o : Bool) (mk : Char) (pad : Nat) (loose : Bool) (n : Nat) (it : List T2)
+    (h1 : 1 ≤ pad) (h4 : pad ≤ 4) (hok : T2.okItems o mk pad n [it] = true) (hN : NodesClaim ti it) :
+    ItemsClaim ti o mk pad loose n [it] := by
+  intro pre post start k st gas acc ld nm hk hg hpost hln
+  obtain ⟨_, _, hlead, hdoc, _, _⟩ := okItems_cons o mk pad n it [] hok
+  have hm := listLeader_of o _ hlead
+  obtain ⟨c0, cs, hw⟩ : ∃ c0 cs, writes2 it = c0 :: cs := by
+    cases hw : writes2 it with
+    | nil => rw [hw] at hdoc; simp [itemDocOk] at hdoc
+    | cons c0 cs => exact ⟨c0, cs, rfl⟩
+  rw [hw] at hdoc
+  obtain ⟨g, rfl⟩ : ∃ g, gas = g + 1 := ⟨gas - 1, by rw [needItems_cons] at hg; omega⟩
+  have hg' : needs2 it ≤ g := by rw [needItems_cons] at hg; omega
+  have hprev : nm = none ∨ nm = some (0, (leaderOf o n mk).length + pad, leaderOf o n mk, c0) := by
+    rcases hln with ⟨_, h⟩ | ⟨_, _, _, h⟩
+    · exact Or.inl h
+    · right; rw [h]; simp [firstLine, hw]
+  have hil := item_lines_last (dcfg ti) _ hm pad h1 h4 c0 cs hdoc pre post start k hk hpost nm hprev
+  have htok := hN false k st g hg'
+  simp only [sepS, Bool.false_eq_true, if_false, List.append_nil, hw] at htok
+  have hom := otherMarker_of_ldnm o mk pad n [it] ld nm hln hlead
+  rw [writeItems_single, hw]
+  rw [readList_step_stop (dcfg ti) g _ st ld nm acc _ _ _ _ _ _ _ _ _ _ hom hil htok]
+  simp only [items2, entries2_length, List.isEmpty_nil, Bool.not_true, Bool.and_false, Bool.false_or, Bool.or_false,
+    touchItems, gt_iff_lt, Bool.and_self, List.length_cons, indentDoc, List.length_map]
+
+/-- an item and the items behind it -/
+theorem items_cons (ti : Bool) (o : Bool) (mk : Char) (pad : Nat) (loose : Bool) (n : Nat) (it it' : List T2) (r : List (List T2))
+    (h1 : 1 ≤ pad) (h4 : pad ≤ 4) (hok : T2.okItems o mk pad n (it :: it' :: r) = true) (hN : NodesClaim ti it)
+    (hR : ItemsClaim ti o mk pad loose (n + 1) (it' :: r)) :
+    ItemsClaim ti o mk pad loose n (it :: it' :: r) := by
+  intro pre post start k st gas acc ld nm hk hg hpost hln
+  obtain ⟨_, _, hlead, hdoc, _, hok'⟩ := okItems_cons o mk pad n it (it' :: r) hok
+  obtain ⟨_, _, hlead', hdoc', htb', _⟩ := okItems_cons o mk pad (n + 1) it' r hok'
+  have hm := listLeader_of o _ hlead
+  have hm' := listLeader_of o _ hlead'
+  obtain ⟨c0, cs, hw⟩ : ∃ c0 cs, writes2 it = c0 :: cs := by
+    cases hw : writes2 it with
+    | nil => rw [hw] at hdoc; simp [itemDocOk] at hdoc
+    | cons c0 cs => exact ⟨c0, cs, rfl⟩
+  obtain ⟨c0', cs', hw'⟩ : ∃ c0 cs, writes2 it' = c0 :: cs := by
+    cases hw : writes2 it' with
+    | nil => rw [hw] at hdoc'; simp [itemDocOk] at hdoc'
+    | cons c0 cs => exact ⟨c0, cs, rfl⟩
+  rw [hw] at hdoc
+  rw [hw'] at hdoc' htb'
+  simp only [List.headD_cons] at htb'
+  obtain ⟨⟨ch', r0', rfl, hch'⟩, _, _⟩ := itemDoc_facts c0' cs' hdoc'
+  obtain ⟨g, rfl⟩ : ∃ g, gas = g + 1 := ⟨gas - 1, by rw [needItems_cons] at hg; omega⟩
+  have hg1 : needs2 it ≤ g := by rw [needItems_cons] at hg; omega
+  have hg2 : needItems (it' :: r) ≤ g := by rw [needItems_cons] at hg; omega
+  have hprev : nm = none ∨ nm = some (0, (leaderOf o n mk).length + pad, leaderOf o n mk, c0) := by
+    rcases hln with ⟨_, h⟩ | ⟨_, _, _, h⟩
+    · exact Or.inl h
+    · right; rw [h]; simp [firstLine, hw]
+  -- the lines of the list, split behind the first item
+  obtain ⟨tl, htl⟩ := writeItems_head o mk pad loose (n + 1) it' r (ch' :: r0') cs' hw'
+  let k2 := k + (cs.length + 1 + (sepS loose).length)
+  have hlen : (indentDoc (leaderOf o n mk) pad (c0 :: cs) ++ sepS loose).length = cs.length + 1 + (sepS loose).length := by
+    simp [indentDoc]; omega
+  have hsplit : numbered k (writeItems o mk pad loose n (it :: it' :: r)) =
+      numbered k (indentDoc (leaderOf o n mk) pad (c0 :: cs) ++ sepS loose) ++
+        numbered k2 (writeItems o mk pad loose (n + 1) (it' :: r)) := by
+    rw [writeItems_cons2, hw, ← List.append_assoc, numbered_append, hlen]
+  -- the marker line of the next item
+  obtain ⟨c, m'', hmc, hc⟩ := hm'.lead
+  let l' : Line := { s := leaderOf o (n + 1) mk ++ List.replicate pad ' ' ++ ch' :: r0', origin := k2 + 1 }
+  have hl's : l'.s = c :: (m'' ++ List.replicate pad ' ' ++ ch' :: r0') := by
+    show leaderOf o (n + 1) mk ++ List.replicate pad ' ' ++ ch' :: r0' = _
+    rw [hmc]; simp
+  have hnext : numbered k2 (writeItems o mk pad loose (n + 1) (it' :: r)) = l' :: numbered (k2 + 1) tl := by
+    rw [htl, numbered_cons]
+  have hnc : parseContinuation l'.s ((leaderOf o n mk).length + pad) = none := by
+    rw [hl's]
+    exact parseContinuation_lead c _ _ (by omega) hc.n_sp hc.n_tab (by rintro rfl; exact absurd hc.nsp (by decide))
+  have hpm' : parseMarker l'.s = some (0, (leaderOf o (n + 1) mk).length + pad, leaderOf o (n + 1) mk, ch' :: r0') :=
+    parseMarker_first _ hm' pad h1 h4 ch' r0' hch'
+  have hne : NoEarly l'.s := by
+    rw [hl's]
+    refine lead_noEarly hc _ ?_
+    rw [← hl's]
+    exact htb'
+  have hil := item_lines_next (dcfg ti) _ hm pad h1 h4 c0 cs hdoc loose pre (numbered (k2 + 1) tl ++ post) l' start k hk _ hnc hpm' hne nm hprev
+  have htok := hN loose k st g hg1
+  rw [hw] at htok
+  have hom := otherMarker_of_ldnm o mk pad n (it :: it' :: r) ld nm hln hlead
+  have hbuf : pre ++ numbered k (writeItems o mk pad loose n (it :: it' :: r)) ++ post =
+      pre ++ numbered k (indentDoc (leaderOf o n mk) pad (c0 :: cs) ++ sepS loose) ++ l' :: (numbered (k2 + 1) tl ++ post) := by
+    rw [hsplit, hnext]; simp
+  rw [hbuf, readList_step_next (dcfg ti) g _ st ld nm acc _ _ _ _ _ _ _ _ _ _ _ hom hil htok]
+  -- the items behind
+  have hbuf2 : pre ++ numbered k (indentDoc (leaderOf o n mk) pad (c0 :: cs) ++ sepS loose) ++ l' :: (numbered (k2 + 1) tl ++ post) =
+      (pre ++ numbered k (indentDoc (leaderOf o n mk) pad (c0 :: cs) ++ sepS loose)) ++
+        numbered k2 (writeItems o mk pad loose (n + 1) (it' :: r)) ++ post := by
+    rw [hnext]; simp
+  have hpos : pre.length + (cs.length + 1 + (sepS loose).length) =
+      (pre ++ numbered k (indentDoc (leaderOf o n mk) pad (c0 :: cs) ++ sepS loose)).length := by
+    rw [List.length_append, numbered_length, hlen]
+  have hln' : LdNm o mk pad (n + 1) (it' :: r) (some (ld.getD (leaderOf o n mk)))
+      (some (0, (leaderOf o (n + 1) mk).length + pad, leaderOf o (n + 1) mk, ch' :: r0')) := by
+    right
+    rcases hln with ⟨rfl, _⟩ | ⟨n0, rfl, h0, _⟩
+    · exact ⟨n, rfl, hlead, by simp [firstLine, hw']⟩
+    · exact ⟨n0, rfl, h0, by simp [firstLine, hw']⟩
+  rw [hbuf2, hpos]
+  rw [hR _ post start k2 _ g _ _ _ (by rw [← hpos]; omega) hg2 hpost hln']
+  simp only [items2, hw, List.length_cons, touchItems, after_after, List.isEmpty_cons, Bool.not_false, Bool.and_true,
+    List.reverse_cons, List.append_assoc, List.singleton_append, List.length_append, numbered_length, hlen]
+  have e1 : k2 + 1 = k + 1 + (cs.length + 1) + (sepS loose).length := by show k + _ + 1 = _; omega
+  have e2 : (writeItems o mk pad loose n (it :: it' :: r)).length =
+      cs.length + 1 + (sepS loose).length + (writeItems o mk pad loose (n + 1) (it' :: r)).length := by
+    rw [writeItems_cons2, hw, ← List.append_assoc, List.length_append, hlen]
+  rw [e1, e2, Bool.or_comm (decide (1 < it.length)) loose]
+  simp only [← Nat.add_assoc, hnext, List.cons_append]
+
+
+/-! ### Nodes that are not lists -/
+
+theorem needs2_cons (t : T2) (rest : List T2) : needs2 (t :: rest) = need2 t + needs2 rest + 14 := by simp [needs2]
+
+theorem node_para (ti : Bool) (ls : List Str) (h : (T2.para ls).ok = true) : NodeClaim ti (.para ls) := by
+  intro k st gas hg
+  have hp := paraOk_of ls (by simpa [T2.ok, T.ok] using h)
+  obtain ⟨l0, tl, hl, ho⟩ := numbered_ne k ls hp.ne
+  have hs : (l0 :: tl).map (·.s) = ls := by rw [← hl]; exact numbered_s k ls
+  obtain ⟨g, rfl⟩ : ∃ g, gas = g + 14 := ⟨gas - 14, by simp only [need2] at hg; omega⟩
+  have := Props.C14.C14_single_paragraph_default ti l0 tl
+    (fun l hm => hp.inert _ (numbered_mem k ls l (by rw [hl]; exact hm))) (k + 1) st g
+  simp only [write2, touch, after_false, entry2, hl]
+  rw [hs, ho] at this
+  exact this
+
+theorem node_heading (ti : Bool) (lv : Nat) (t line : Str) (h : (T2.heading lv t line).ok = true) : NodeClaim ti (.heading lv t line) := by
+  intro k st gas hg
+  have hh := headOk_of lv t line (by simpa [T2.ok, T.ok] using h)
+  obtain ⟨g, rfl⟩ : ∃ g, gas = g + 6 := ⟨gas - 6, by simp only [need2] at hg; omega⟩
+  have := tokenize_heading ti lv t line hh.head (k + 1) (k + 1) st g
+  simp only [write2, touch, after_false, entry2, numbered_cons, show numbered (k + 1) [] = [] from rfl]
+  exact this
+
+theorem node_hr (ti : Bool) (line : Str) (h : (T2.hr line).ok = true) : NodeClaim ti (.hr line) := by
+  intro k st gas hg
+  have hh := hrOk_of line (by simpa [T2.ok, T.ok] using h)
+  obtain ⟨g, rfl⟩ : ∃ g, gas = g + 9 := ⟨gas - 9, by simp only [need2] at hg; omega⟩
+  have := tokenize_hr ti line hh.1 (k + 1) (k + 1) st g
+  simp only [write2, touch, after_false, entry2, numbered_cons, show numbered (k + 1) [] = [] from rfl]
+  exact this
+
+theorem node_quote (ti : Bool) (bare : Bool) (kids : List T2) (h : (T2.quote bare kids).ok = true) (hN : NodesClaim ti kids) :
+    NodeClaim ti (.quote bare kids) := by
+  intro k st gas hg
+  obtain ⟨hne, hk, hbare⟩ := quoteOk2_of bare kids h
+  obtain ⟨g, rfl⟩ : ∃ g, gas = g + 6 := ⟨gas - 6, by simp only [need2] at hg; omega⟩
+  have hg' : needs2 kids ≤ g := by simp only [need2] at hg; omega
+  have ih := hN false k { st with setext := false } g hg'
+  simp only [sepS, Bool.false_eq_true, if_false, List.append_nil, Bool.or_false] at ih
+  have hw := writes2_lineOk kids hk
+  obtain ⟨l0, tl, hl, ho⟩ := numbered_ne k (writes2 kids) (hw.2 hne)
+  rw [hl] at ih
+  simp only [write2, touch, entry2]
+  have hmem : ∀ l ∈ l0 :: tl, l.s ∈ writes2 kids := fun l hm => numbered_mem k _ l (by rw [hl]; exact hm)
+  cases bare with
+  | false =>
+    have := Props.C04.C04_quote_wraps_default ti l0 tl
+      (fun l hm => lineOk_notab (hw.1 _ (hmem l hm))) (k + 1) st _ g _ ih
+    have e1 : numbered k ((writes2 kids).map qsp) = (l0 :: tl).map quoteSp := by
+      rw [← hl]; exact Props.C04.numbered_map_sp k (writes2 kids)
+    simp only [Bool.false_eq_true, if_false]
+    rw [e1]
+    refine Eq.trans this ?_
+    rw [ho]
+    simp [after]
+  | true =>
+    have := Props.C04.C04_quote_wraps_bare (dcfg ti) [.htmlBlock, .blockCode, .heading]
+      [.codeFence, .thematicBreak, .list, .table, .footnote, .paragraph] rfl (by decide) (by decide) l0 tl
+      (fun l hm => ⟨lineOk_notab (hw.1 _ (hmem l hm)), by
+        have hne' := lineOk_ne (hw.1 _ (hmem l hm))
+        have hsp := hbare rfl _ (hmem l hm)
+        cases hs : l.s with
+        | nil => exact absurd hs hne'
+        | cons c r =>
+          refine ⟨c, r, rfl, ?_⟩
+          intro e; rw [hs, e] at hsp; exact hsp rfl⟩)
+      (k + 1) st _ g _ ih
+    have e1 : numbered k ((writes2 kids).map qbare) = (l0 :: tl).map quoteBare := by
+      rw [← hl]; exact Props.C04.numbered_map_bare k (writes2 kids)
+    simp only [if_true]
+    rw [e1]
+    refine Eq.trans this ?_
+    rw [ho]
+    simp [after]
+
+theorem lines_ok_tail (ts : List T2) (h : T2.oks ts = true) (tail : Bool) : ∀ s ∈ writes2 ts ++ sepS tail, LineOk s := by
+  intro s hs
+  rcases List.mem_append.mp hs with hs | hs
+  · exact (writes2_lineOk ts h).1 s hs
+  · cases tail with
+    | false => simp [sepS] at hs
+    | true => simp only [sepS, if_true, List.mem_singleton] at hs; rw [hs]; exact lineOk_nl
+
+theorem dcfg_noBlank (ti : Bool) : BTok.blankLine ∉ (dcfg ti).types := by
+  show BTok.blankLine ∉ defaultTypes
+  decide
+
+theorem dcfg_len (ti : Bool) : (dcfg ti).types.length = 10 := rfl
+
+/-- a node that is not a list, alone or before a final "\n" line -/
+theorem nodes_single_closed (ti : Bool) (t : T2) (hok : t.ok = true) (hnl : isList t = false) (hT : NodeClaim ti t) :
+    NodesClaim ti [t] := by
+  intro tail k st gas hg
+  rw [needs2_cons] at hg
+  cases tail with
+  | false =>
+    have := hT k st gas (by omega)
+    simpa [sepS, writes2_single, entries2, touches] using this
+  | true =>
+    have hA := hT k st (need2 t) (Nat.le_refl _)
+    have hw := write2_lineOk t hok
+    obtain ⟨g', hg', heq⟩ := tokenizeBlock_prefix_lists (dcfg ti) (dcfg_noBlank ti) (numbered k (write2 t))
+      { s := ['\n'], origin := k + (write2 t).length + 1 } rfl [] (k + 1) st (need2 t) _ _ hA
+      (by intro e he; simp only [List.getLast?_singleton, Option.some.injEq] at he; subst he; exact closed_entry2 _ t hnl)
+      (numbered_allNlEnd k _ hw.1) 11 (by rw [dcfg_len]; omega)
+    obtain ⟨g'', rfl⟩ : ∃ g'', g' = g'' + 1 := ⟨g' - 1, by omega⟩
+    have hend : FW.peek ⟨numbered k (write2 t) ++ [{ s := ['\n'], origin := k + (write2 t).length + 1 }],
+        (numbered k (write2 t)).length + 1, k + 1⟩ = none := by
+      have := peek_end (numbered k (write2 t) ++ [{ s := ['\n'], origin := k + (write2 t).length + 1 }]) (k + 1)
+      simpa using this
+    simp only [tokLoop, hend] at heq
+    have hbuf : numbered k (writes2 [t] ++ sepS true) =
+        numbered k (write2 t) ++ [{ s := ['\n'], origin := k + (write2 t).length + 1 }] := by
+      rw [writes2_single, numbered_append]; rfl
+    rw [hbuf]
+    refine tokenizeBlock_mono (dcfg ti) _ _ _ _ (need2 t + 11) gas (by omega) ?_
+    rw [heq]
+    simp [entries2, touches]
+
+
+theorem buf_cons2 (t t' : T2) (r : List T2) (tail : Bool) (k : Nat) :
+    numbered k (writes2 (t :: t' :: r) ++ sepS tail) =
+      numbered k (write2 t) ++ { s := ['\n'], origin := k + (write2 t).length + 1 } ::
+        (numbered k (writes2 (t' :: r) ++ sepS tail)).map (Line.sh ((numbered k (write2 t)).length + 1)) := by
+  rw [writes2_cons2, List.append_assoc, numbered_append, List.cons_append, numbered_cons, numbered_length, ← numbered_sh]
+  have : k + (write2 t).length + 1 = k + ((write2 t).length + 1) := by omega
+  rw [this]
+
+/-- a node that is not a list, a "\n" line, further siblings: C05 -/
+theorem nodes_cons_closed (ti : Bool) (t t' : T2) (r : List T2) (hok : T2.oks (t :: t' :: r) = true) (hnl : isList t = false)
+    (hT : NodeClaim ti t) (hR : NodesClaim ti (t' :: r)) : NodesClaim ti (t :: t' :: r) := by
+  intro tail k st gas hg
+  rw [needs2_cons] at hg
+  obtain ⟨h1, h2, _⟩ := oks2_cons t (t' :: r) hok
+  have hA := hT k st (need2 t) (Nat.le_refl _)
+  have hB := hR tail k (after st (touch t)) (gas - need2 t - 11) (by omega)
+  have hwt := write2_lineOk t h1
+  have key := tokenizeBlock_concat_lists (dcfg ti) (dcfg_noBlank ti) (numbered k (write2 t))
+    (numbered k (writes2 (t' :: r) ++ sepS tail)) { s := ['\n'], origin := k + (write2 t).length + 1 } rfl (k + 1) st
+    (need2 t) (gas - need2 t - 11) _ _ _ _ hA
+    (by intro e he; simp only [List.getLast?_singleton, Option.some.injEq] at he; subst he; exact closed_entry2 _ t hnl)
+    hB (numbered_allNlEnd k _ hwt.1) (numbered_allNlEnd k _ (lines_ok_tail _ h2 tail))
+  have hgas : gas = need2 t + (gas - need2 t - 11 + (dcfg ti).types.length + 1) := by rw [dcfg_len]; omega
+  rw [buf_cons2, hgas, key, numbered_length, entries2_shift]
+  have e3 : k + 1 + ((write2 t).length + 1) = k + 1 + (write2 t).length + 1 := by omega
+  simp only [List.singleton_append, entries2, e3, List.length_cons, touches, after_after]
+  have hl : decide (1 < r.length + 1 + 1) = true := by simp
+  rw [hl]
+  simp
+
+
+/-! ### Lists among the siblings -/
+
+/-- the dispatch loop on the first line of a written list, `post` behind the list: one `List` entry, the cursor on the
+    line behind the list -/
+theorem list_then (ti : Bool) (o : Bool) (n : Nat) (mk : Char) (pad : Nat) (loose : Bool) (items : List (List T2))
+    (hok : (T2.list o n mk pad loose items).ok = true) (hI : ItemsClaim ti o mk pad loose n items)
+    (post : List Line) (hpost : PostOk post) (k : Nat) (st : St) (g : Nat) (hg : needItems items ≤ g)
+    (acc : List Entry) (lo : Bool) :
+    tokLoop (dcfg ti) (g + 8) ⟨numbered k (write2 (.list o n mk pad loose items)) ++ post, 0, k + 1⟩ st acc lo =
+      tokLoop (dcfg ti) (g + 7)
+        ⟨numbered k (write2 (.list o n mk pad loose items)) ++ post, (write2 (.list o n mk pad loose items)).length, k + 1⟩
+        (after st (touch (.list o n mk pad loose items))) (entry2 (k + 1) (.list o n mk pad loose items) :: acc) lo := by
+  have hl := listOk_of o n mk pad loose items hok
+  cases items with
+  | nil => exact absurd rfl hl.ne
+  | cons it rest =>
+    obtain ⟨_, _, hlead, hdoc, htb, _⟩ := okItems_cons o mk pad n it rest hl.its
+    have hm := listLeader_of o _ hlead
+    obtain ⟨c0, cs, hw⟩ : ∃ c0 cs, writes2 it = c0 :: cs := by
+      cases hw : writes2 it with
+      | nil => rw [hw] at hdoc; simp [itemDocOk] at hdoc
+      | cons c0 cs => exact ⟨c0, cs, rfl⟩
+    rw [hw] at htb
+    simp only [List.headD_cons] at htb
+    obtain ⟨tl, htl⟩ := writeItems_head o mk pad loose n it rest c0 cs hw
+    obtain ⟨c, m'', hmc, hc⟩ := hm.lead
+    have hrl := hI [] post (k + 1) k st g [] none none (by simp) hg hpost (Or.inl ⟨rfl, rfl⟩)
+    simp only [List.nil_append, List.length_nil, Nat.zero_add, List.reverse_nil] at hrl
+    simp only [write2, touch, entry2]
+    generalize hL : writeItems o mk pad loose n (it :: rest) = L at hrl htl ⊢
+    subst htl
+    rw [numbered_cons] at hrl ⊢
+    have hls : ({ s := leaderOf o n mk ++ List.replicate pad ' ' ++ c0, origin := k + 1 } : Line).s =
+        c :: (m'' ++ List.replicate pad ' ' ++ c0) := by
+      show leaderOf o n mk ++ List.replicate pad ' ' ++ c0 = _
+      rw [hmc]; simp
+    have hp := peek_at [] { s := leaderOf o n mk ++ List.replicate pad ' ' ++ c0, origin := k + 1 } (numbered (k + 1) tl ++ post) (k + 1)
+    simp only [List.nil_append, List.length_nil] at hp
+    have hty := tryTypes_lead (dcfg ti)
+      ⟨{ s := leaderOf o n mk ++ List.replicate pad ' ' ++ c0, origin := k + 1 } :: (numbered (k + 1) tl ++ post), 0, k + 1⟩ st
+      _ c _ hls hc htb [.table, .footnote, .paragraph] g [.htmlBlock, .blockCode, .heading, .quote, .codeFence, .thematicBreak]
+      (by decide) (by decide) (by decide)
+    have hstart : listStart (leaderOf o n mk ++ List.replicate pad ' ' ++ c0) = true := listStart_first _ hm pad hl.p1 _
+    have e : g + 8 = (g + 7) + 1 := by omega
+    rw [e]
+    generalize hG : g + 7 = G
+    simp only [tokLoop, List.cons_append, hp]
+    subst hG
+    have hty' : (dcfg ti).types = [.htmlBlock, .blockCode, .heading, .quote, .codeFence, .thematicBreak] ++ .list :: [.table, .footnote, .paragraph] := rfl
+    rw [hty']
+    simp only [List.length_cons, List.length_nil, Nat.zero_add] at hty
+    have e2 : g + 7 = g + 1 + (1 + 1 + 1 + 1 + 1 + 1) := by omega
+    rw [e2, hty]
+    simp only [tryTypes, hstart, if_true]
+    simp only [List.cons_append] at hrl
+    rw [hrl]
+
+
+theorem need2_list (o : Bool) (n : Nat) (mk : Char) (pad : Nat) (loose : Bool) (items : List (List T2)) :
+    need2 (.list o n mk pad loose items) = needItems items + 12 := by simp [need2]
+
+/-- a list alone in its buffer, or before a final "\n" line -/
+theorem nodes_single_list (ti : Bool) (o : Bool) (n : Nat) (mk : Char) (pad : Nat) (loose : Bool) (items : List (List T2))
+    (hok : (T2.list o n mk pad loose items).ok = true) (hI : ItemsClaim ti o mk pad loose n items) :
+    NodesClaim ti [.list o n mk pad loose items] := by
+  intro tail k st gas hg
+  rw [needs2_cons, need2_list] at hg
+  obtain ⟨g, rfl⟩ : ∃ g, gas = (g + 8) + 1 := ⟨gas - 9, by omega⟩
+  have hgi : needItems items ≤ g := by simp only [needs2] at hg; omega
+  rw [writes2_single, numbered_append]
+  simp only [tokenizeBlock]
+  cases tail with
+  | false =>
+    have := list_then ti o n mk pad loose items hok hI [] (Or.inl rfl) k st g hgi [] false
+    simp only [sepS, Bool.false_eq_true, if_false, show ∀ j, numbered j ([] : List Str) = [] from fun _ => rfl]
+    rw [this]
+    have hend := peek_end (numbered k (write2 (.list o n mk pad loose items)) ++ []) (k + 1)
+    simp only [List.length_append, numbered_length, List.length_nil, Nat.add_zero] at hend
+    have e : g + 7 = (g + 6) + 1 := by omega
+    rw [e]
+    simp only [tokLoop, hend]
+    simp [entries2, touches]
+  | true =>
+    have hpost : PostOk [{ s := ['\n'], origin := k + (write2 (.list o n mk pad loose items)).length + 1 }] :=
+      Or.inr ⟨_, [], rfl, rfl, by simp⟩
+    have := list_then ti o n mk pad loose items hok hI _ hpost k st g hgi [] false
+    simp only [sepS, if_true, numbered_cons, show ∀ j, numbered j ([] : List Str) = [] from fun _ => rfl]
+    rw [this]
+    have hp := peek_at (numbered k (write2 (.list o n mk pad loose items)))
+      { s := ['\n'], origin := k + (write2 (.list o n mk pad loose items)).length + 1 } [] (k + 1)
+    rw [numbered_length] at hp
+    have e : g + 7 = (g + 6) + 1 := by omega
+    rw [e]
+    generalize hG : g + 6 = G
+    simp only [tokLoop, hp]
+    rw [tryTypes_nl_none (dcfg ti) _ _ _ rfl _ G (dcfg_noBlank ti) (by rw [dcfg_len]; omega)]
+    simp only
+    obtain ⟨G', rfl⟩ : ∃ G', G = G' + 1 := ⟨G - 1, by omega⟩
+    have hend := peek_end (numbered k (write2 (.list o n mk pad loose items)) ++
+      [{ s := ['\n'], origin := k + (write2 (.list o n mk pad loose items)).length + 1 }]) (k + 1)
+    simp only [List.length_append, numbered_length, List.length_singleton] at hend
+    simp only [tokLoop, FW.next, hend]
+    simp [entries2, touches]
+
+
+/-- a list, a "\n" line, further siblings: `ListItem.read` steps back onto the "\n" line, the dispatcher goes on behind it -/
+theorem nodes_cons_list (ti : Bool) (o : Bool) (n : Nat) (mk : Char) (pad : Nat) (loose : Bool) (items : List (List T2))
+    (t' : T2) (r : List T2) (hok : T2.oks (.list o n mk pad loose items :: t' :: r) = true)
+    (hI : ItemsClaim ti o mk pad loose n items) (hR : NodesClaim ti (t' :: r)) :
+    NodesClaim ti (.list o n mk pad loose items :: t' :: r) := by
+  intro tail k st gas hg
+  obtain ⟨h1, h2, hsep⟩ := oks2_cons _ (t' :: r) hok
+  have hsep' := hsep t' r rfl
+  rw [needs2_cons, need2_list] at hg
+  obtain ⟨g, rfl⟩ : ∃ g, gas = (g + 8) + 1 := ⟨gas - 9, by omega⟩
+  have hgi : needItems items ≤ g := by omega
+  have hgr : needs2 (t' :: r) ≤ g + 7 := by omega
+  generalize ht : T2.list o n mk pad loose items = t at *
+  -- the first line of the next sibling
+  obtain ⟨h1', _, _⟩ := oks2_cons t' r h2
+  have hw' := write2_lineOk t' h1'
+  obtain ⟨s0, ss, hs0⟩ : ∃ s0 ss, write2 t' = s0 :: ss := by
+    cases hh : write2 t' with
+    | nil => exact absurd hh hw'.2
+    | cons a b => exact ⟨a, b, rfl⟩
+  have hstop : StopLine s0 := by
+    subst ht
+    simp only [sepOk, isList, Bool.not_true, Bool.false_or, Bool.and_eq_true, hs0, List.headD_cons] at hsep'
+    exact stopLine_of s0 hsep'.2
+  have hhead : ∃ ss', writes2 (t' :: r) ++ sepS tail = s0 :: ss' := by
+    cases r with
+    | nil => rw [writes2_single, hs0]; exact ⟨_, rfl⟩
+    | cons a b => rw [writes2_cons2, hs0]; exact ⟨_, rfl⟩
+  obtain ⟨ss', hss'⟩ := hhead
+  have hpost : PostOk ({ s := ['\n'], origin := k + (write2 t).length + 1 } ::
+      (numbered k (writes2 (t' :: r) ++ sepS tail)).map (Line.sh ((numbered k (write2 t)).length + 1))) := by
+    refine Or.inr ⟨_, _, rfl, rfl, ?_⟩
+    intro s hs
+    rw [hss', numbered_cons] at hs
+    simp only [List.map_cons, List.head?_cons, Option.some.injEq] at hs
+    subst hs
+    exact hstop
+  have hlt := list_then ti o n mk pad loose items (by rw [ht]; exact h1) hI _ hpost k st g hgi [] false
+  rw [ht] at hlt
+  rw [buf_cons2]
+  simp only [tokenizeBlock]
+  rw [hlt]
+  have hp := peek_at (numbered k (write2 t)) { s := ['\n'], origin := k + (write2 t).length + 1 }
+    ((numbered k (writes2 (t' :: r) ++ sepS tail)).map (Line.sh ((numbered k (write2 t)).length + 1))) (k + 1)
+  have e : g + 7 = (g + 6) + 1 := by omega
+  rw [e]
+  generalize hG : g + 6 = G
+  rw [numbered_length] at hp ⊢
+  simp only [tokLoop, hp]
+  rw [tryTypes_nl_none (dcfg ti) _ _ _ rfl _ G (dcfg_noBlank ti) (by rw [dcfg_len]; omega)]
+  simp only
+  -- behind the "\n" line: the siblings, in a buffer of their own
+  have hB := hR tail k (after st (touch t)) (G + 1) (by omega)
+  have hnlB : AllNlEnd (numbered k (writes2 (t' :: r) ++ sepS tail)) := numbered_allNlEnd k _ (lines_ok_tail _ h2 tail)
+  have hsh := tokLoop_suffix_shift (dcfg ti) G (numbered k (write2 t) ++ [{ s := ['\n'], origin := k + (write2 t).length + 1 }])
+    (numbered k (writes2 (t' :: r) ++ sepS tail)) (k + 1) (after st (touch t)) [entry2 (k + 1) t] true hnlB
+  simp only [List.length_append, numbered_length, List.length_singleton, List.append_assoc, List.singleton_append] at hsh
+  simp only [FW.next]
+  rw [hsh, hB]
+  simp only [rmap_ok, shB, withAcc]
+  rw [entries2_shift]
+  have e3 : k + 1 + ((write2 t).length + 1) = k + 1 + (write2 t).length + 1 := by omega
+  rw [e3]
+  have hl : decide (1 < (t :: t' :: r).length) = true := by simp
+  rw [hl]
+  simp only [entries2, touches, after_after, List.reverse_singleton, List.singleton_append, Bool.true_or]
+
+
+/-! ### The induction over the tree -/
+
+theorem nodes_step_closed (ti : Bool) (t : T2) (rest : List T2) (hok : T2.oks (t :: rest) = true) (hnl : isList t = false)
+    (hT : NodeClaim ti t) (hR : rest ≠ [] → NodesClaim ti rest) : NodesClaim ti (t :: rest) := by
+  cases rest with
+  | nil => exact nodes_single_closed ti t (oks2_cons t [] hok).1 hnl hT
+  | cons t' r => exact nodes_cons_closed ti t t' r hok hnl hT (hR (by simp))
+
+theorem nodes_step_list (ti : Bool) (o : Bool) (n : Nat) (mk : Char) (pad : Nat) (loose : Bool) (items : List (List T2))
+    (rest : List T2) (hok : T2.oks (.list o n mk pad loose items :: rest) = true)
+    (hI : ItemsClaim ti o mk pad loose n items) (hR : rest ≠ [] → NodesClaim ti rest) :
+    NodesClaim ti (.list o n mk pad loose items :: rest) := by
+  cases rest with
+  | nil => exact nodes_single_list ti o n mk pad loose items (oks2_cons _ [] hok).1 hI
+  | cons t' r => exact nodes_cons_list ti o n mk pad loose items t' r hok hI (hR (by simp))
+
+theorem items_step (ti : Bool) (o : Bool) (mk : Char) (pad : Nat) (loose : Bool) (n : Nat) (it : List T2) (rest : List (List T2))
+    (h1 : 1 ≤ pad) (h4 : pad ≤ 4) (hok : T2.okItems o mk pad n (it :: rest) = true) (hN : NodesClaim ti it)
+    (hR : rest ≠ [] → ItemsClaim ti o mk pad loose (n + 1) rest) : ItemsClaim ti o mk pad loose n (it :: rest) := by
+  cases rest with
+  | nil => exact items_last ti o mk pad loose n it h1 h4 hok hN
+  | cons it' r => exact items_cons ti o mk pad loose n it it' r h1 h4 hok hN (hR (by simp))
+
+mutual
+/-- **siblings** (any nodes of the fragment), in a buffer of their own -/
+theorem nodes_claim (ti : Bool) : ∀ (ts : List T2), T2.oks ts = true → ts ≠ [] → NodesClaim ti ts
+  | [], _, hne => absurd rfl hne
+  | .para ls :: rest, h, _ =>
+    nodes_step_closed ti _ rest h rfl (node_para ti ls (oks2_cons _ _ h).1)
+      (fun hne => nodes_claim ti rest (oks2_cons _ _ h).2.1 hne)
+  | .heading lv t line :: rest, h, _ =>
+    nodes_step_closed ti _ rest h rfl (node_heading ti lv t line (oks2_cons _ _ h).1)
+      (fun hne => nodes_claim ti rest (oks2_cons _ _ h).2.1 hne)
+  | .hr line :: rest, h, _ =>
+    nodes_step_closed ti _ rest h rfl (node_hr ti line (oks2_cons _ _ h).1)
+      (fun hne => nodes_claim ti rest (oks2_cons _ _ h).2.1 hne)
+  | .quote bare kids :: rest, h, _ =>
+    nodes_step_closed ti _ rest h rfl
+      (node_quote ti bare kids (oks2_cons _ _ h).1
+        (nodes_claim ti kids (quoteOk2_of bare kids (oks2_cons _ _ h).1).2.1 (quoteOk2_of bare kids (oks2_cons _ _ h).1).1))
+      (fun hne => nodes_claim ti rest (oks2_cons _ _ h).2.1 hne)
+  | .list o n mk pad loose items :: rest, h, _ =>
+    have hl := listOk_of o n mk pad loose items (oks2_cons _ _ h).1
+    nodes_step_list ti o n mk pad loose items rest h
+      (items_claim ti o mk pad loose hl.p1 hl.p4 n items hl.its hl.ne)
+      (fun hne => nodes_claim ti rest (oks2_cons _ _ h).2.1 hne)
+/-- **the items of a list**, anywhere in a buffer -/
+theorem items_claim (ti : Bool) (o : Bool) (mk : Char) (pad : Nat) (loose : Bool) (h1 : 1 ≤ pad) (h4 : pad ≤ 4) :
+    ∀ (n : Nat) (items : List (List T2)), T2.okItems o mk pad n items = true → items ≠ [] → ItemsClaim ti o mk pad loose n items
+  | _, [], _, hne => absurd rfl hne
+  | n, it :: rest, h, _ =>
+    items_step ti o mk pad loose n it rest h1 h4 h
+      (nodes_claim ti it (okItems_cons o mk pad n it rest h).2.1 (okItems_cons o mk pad n it rest h).1)
+      (fun hne => items_claim ti o mk pad loose h1 h4 (n + 1) rest (okItems_cons o mk pad n it rest h).2.2.2.2.2 hne)
+end
+
+/-- **the block phase of a written document** -/
+theorem blockPhase_writes2 (ti : Bool) (ts : List T2) (h : T2.oks ts = true) (hne : ts ≠ []) (gas : Nat) (hg : needs2 ts ≤ gas) :
+    blockPhase (dcfg ti) gas (writes2 ts) =
+      .ok ({ entries := entries2 1 ts, loose := decide (1 < ts.length) }, {}) := by
+  have e : blockPhase (dcfg ti) gas (writes2 ts) = tokenizeBlock (dcfg ti) gas (numbered 0 (writes2 ts)) 1 {} := rfl
+  rw [e]
+  have := nodes_claim ti ts h hne false 0 {} gas hg
+  simp only [sepS, Bool.false_eq_true, if_false, List.append_nil, Nat.zero_add, Bool.or_false] at this
+  rw [this]
+  simp [after]
+
+end Mistletoe.ComposeL
